@@ -47,6 +47,8 @@ uint64_t vp_nalloc, vp_nfree, vp_live_blocks;
 VP_THREAD_LOCAL int vp_tid;
 VP_THREAD_LOCAL uint64_t vp_hp, vp_hp_end, vp_sp, vp_sp_end;
 VP_THREAD_LOCAL int vp_spurious_left;
+int vp_spurious_cfg = VP_SPURIOUS; /* per-query: entries may set it before vp_init() */
+int vp_spurious_at = -1, vp_weak_seen; /* sequentialised queries: exactly the vp_spurious_at-th weak CAS fails spuriously (a per-query constant) */
 
 #ifdef VP_CBMC
 uint64_t nondet_u64(void);
@@ -74,7 +76,7 @@ void vp_set_thread(int tid) {
   vp_hp_end = vp_hp + VP_HEAP_BYTES;
   vp_sp = vp_hp_end;
   vp_sp_end = vp_sp + VP_STACK_BYTES;
-  vp_spurious_left = VP_SPURIOUS;
+  vp_spurious_left = vp_spurious_cfg;
 }
 
 /* saved bump pointers of the two logical threads of a sequentialised schedule */
@@ -249,9 +251,12 @@ static inline void vp_preempt_point(void) {
   if (vp_pre_count == vp_pre_k) vp_run_pending_unit();
   vp_pre_count++;
 }
+void vp_sync_point(void) { vp_preempt_point(); }
 #else
 #define vp_preempt_point() ((void)0) /* threaded (Tier K) and plain sequential modules: no hook at all */
+int vp_pre_enabled, vp_pre_ran, vp_pre_inside;
 void vp_run_pending_unit(void) {}
+void vp_sync_point(void) {}
 #endif
 
 uint64_t vp_atomic_load(uint64_t a, int sz, int order) {
@@ -304,6 +309,7 @@ struct vp_cas_res vp_cmpxchg(uint64_t a, int sz, uint64_t expect, uint64_t desir
   vp_preempt_point();
   int spurious = 0;
   if (weak && vp_spurious_left > 0 && VP_NONDETBOOL()) { vp_spurious_left--; spurious = 1; }
+  if (weak && vp_spurious_at >= 0) { if (vp_weak_seen == vp_spurious_at) spurious = 1; vp_weak_seen++; }
   VP_ATOMIC_BEGIN();
   vp_chk(a, sz);
   uint64_t m = vp_mask(sz);
@@ -332,10 +338,21 @@ VP_THREAD_LOCAL int vp_ncaught;
 
 int vp_exc_pending(void) { return vp_exc != 0; }
 uint64_t vp_exc_object(void) { return vp_exc; }
+uint64_t vp_exc_land(void) { uint64_t o = vp_exc; vp_exc = 0; return o; }
 
-static void vp_exc_addref(uint64_t obj) { vp_atomic_rmw(1, obj - VP_EXC_HDR, 8, 1, 4); }
+/* exception refcounts: atomic, but not schedule points of the sequentialised (Tier A) schedules -- they belong to the
+ * modelled libstdc++ runtime, not to the code under verification */
+static uint64_t vp_exc_rc(uint64_t obj, uint64_t delta) {
+  VP_ATOMIC_BEGIN();
+  vp_chk(obj - VP_EXC_HDR, 8);
+  uint64_t old = vp_rd(obj - VP_EXC_HDR, 8);
+  vp_wr(obj - VP_EXC_HDR, 8, old + delta);
+  VP_ATOMIC_END();
+  return old;
+}
+static void vp_exc_addref(uint64_t obj) { vp_exc_rc(obj, 1); }
 static void vp_exc_release(uint64_t obj) {
-  uint64_t old = vp_atomic_rmw(2, obj - VP_EXC_HDR, 8, 1, 4);
+  uint64_t old = vp_exc_rc(obj, ~0UL);
   VP_ASSERT(old != 0, "exception object refcount underflow");
   if (old == 1) {
     uint64_t dtor = vp_ld(obj - VP_EXC_HDR + 16, 8);
